@@ -4,7 +4,7 @@ The generator builds trees that are well-typed by construction in a small sub-la
 The evaluator shares no code with the compiler and none with the renderer beyond the tree.
 Trees are plain nested tuples so that repr() is a stable hash key and Hypothesis can shrink the underlying choices.
 """
-import hashlib
+import hashlib, math
 
 from hypothesis import strategies as st
 
@@ -50,7 +50,7 @@ class Profile:
         self.__dict__.update(kw)
 
 
-ALL_FEATURES = ["func", "overload", "macro", "closure", "gener", "record", "union", "array", "list", "exc", "domain", "recursion", "bigz", "string", "loop"]
+ALL_FEATURES = ["func", "overload", "macro", "closure", "gener", "record", "union", "array", "list", "exc", "domain", "recursion", "bigz", "string", "loop", "libops"]
 
 
 class G:
@@ -167,6 +167,22 @@ class G:
             return self.e_list(depth, sc)
         raise ValueError(t)
 
+    def e_int(self, t, depth, sc):
+        return self.e_mi(depth, sc) if t == MI else self.e_z(depth, sc)
+
+    def lib_int(self, t, depth, sc):
+        """library operations of IntegerType / OrderedArithmeticType whose meaning is fixed for every operand the generator supplies:
+        node ("lib", result type, name, operand type, args)"""
+        k = self.pick(["abs", "next", "prev", "gcd", "gcd", "max", "min", "shl", "shr"])
+        if k in ("abs", "next", "prev"):
+            return ("lib", t, k, t, (self.e_int(t, depth - 1, sc),))
+        if k in ("gcd", "max", "min"):
+            return ("lib", t, k, t, (self.e_int(t, depth - 1, sc), self.e_int(t, depth - 1, sc)))
+        if k == "shl":
+            return ("lib", t, "shift", t, (self.e_int(t, depth - 1, sc), ("lit", MI, self.int(0, 7), "dec")))
+        # right shift of a non-negative value only: big integers shift their magnitude, machine integers their two's complement word
+        return ("lib", t, "shift", t, (("lib", t, "abs", t, (self.e_int(t, depth - 1, sc),)), ("lit", MI, -self.int(1, 7), "dec")))
+
     def small_mi(self, depth, sc):
         """an MI expression with value in 0..5 (for recursion depth, generator length, exponents)"""
         if depth > 0 and self.chance(40):
@@ -183,6 +199,8 @@ class G:
             opts += ["var"] * 4
         if depth > 0:
             opts += ["add", "add", "sub", "mul", "div", "neg", "if"]
+            if self.has("libops"):
+                opts += ["libint", "libint", "liblen"]
             if self.calls_for(MI, depth):
                 opts += ["call", "call"]
             if [m for m in self.macros if m[2] == MI]:
@@ -212,6 +230,13 @@ class G:
             op = self.pick(["quo", "rem", "mod"])
             dv = self.int(1, 12) if op == "mod" or self.chance(60) else -self.int(1, 12)
             return ("bin", MI, op, self.e_mi(depth - 1, sc), ("lit", MI, dv, "dec"))
+        if k == "libint":
+            return self.lib_int(MI, depth, sc)
+        if k == "liblen":
+            at = self.pick([MI, Z])
+            # bit length of a positive value (the length of zero is a library convention)
+            pos = ("bin", at, "+", ("lib", at, "abs", at, (self.e_int(at, depth - 1, sc),)), ("lit", at, 1, "dec"))
+            return ("lib", MI, "length", at, (pos,))
         if k == "neg":
             return ("neg", MI, self.e_mi(depth - 1, sc))
         if k == "if":
@@ -247,6 +272,8 @@ class G:
             opts += ["var"] * 4
         if depth > 0:
             opts += ["add", "sub", "mul", "div", "neg", "if", "mi2z", "pow"]
+            if self.has("libops"):
+                opts += ["libint", "libint"]
             if self.calls_for(Z, depth):
                 opts += ["call", "call"]
             if [m for m in self.macros if m[2] == Z]:
@@ -273,6 +300,8 @@ class G:
             if op == "mod":
                 v = abs(v)
             return ("bin", Z, op, self.e_z(depth - 1, sc), ("lit", Z, v, "dec"))
+        if k == "libint":
+            return self.lib_int(Z, depth, sc)
         if k == "neg":
             return ("neg", Z, self.e_z(depth - 1, sc))
         if k == "if":
@@ -311,6 +340,8 @@ class G:
             opts += ["var"] * 2
         if depth > 0:
             opts += ["cmpmi"] * 3 + ["cmpz", "cmpz", "and", "or", "not"]
+            if self.has("libops"):
+                opts += ["libpred", "libpred", "libbit"]
             if self.has("string"):
                 opts += ["cmps"]
         k = self.pick(opts)
@@ -318,6 +349,13 @@ class G:
             return ("lit", BOOL, self.chance(50), "dec")
         if k == "var":
             return ("var", BOOL, self.pick(vs))
+        if k == "libpred":
+            at = self.pick([MI, Z])
+            return ("lib", BOOL, self.pick(["even?", "odd?", "zero?"]), at, (self.e_int(at, depth - 1, sc),))
+        if k == "libbit":
+            at = self.pick([MI, Z])
+            # bit test of a non-negative value (big integers are sign-magnitude, machine integers two's complement)
+            return ("lib", BOOL, "bit?", at, (("lib", at, "abs", at, (self.e_int(at, depth - 1, sc),)), ("lit", MI, self.int(0, 9), "dec")))
         if k == "cmpmi":
             return ("cmp", self.pick(["<", "<=", ">", ">=", "=", "~="]), MI, self.e_mi(depth - 1, sc), self.e_mi(depth - 1, sc))
         if k == "cmpz":
@@ -892,7 +930,7 @@ class Evaluator:
         self.out = []
         self.steps = 0
         self.max_steps = max_steps
-        self.stats = {"calls": 0, "closures": 0, "loops": 0, "throws": 0, "caught": 0, "collects": 0}
+        self.stats = {"calls": 0, "closures": 0, "loops": 0, "throws": 0, "caught": 0, "collects": 0, "libops": 0}
 
     def tick(self):
         self.steps += 1
@@ -942,6 +980,45 @@ class Evaluator:
             if t == Z and abs(r) > 10 ** 2000:
                 raise OutOfModel("huge")
             return self.mi(r) if t == MI else r
+        if k == "lib":
+            rt, name, at = e[1], e[2], e[3]
+            a = [self.ev(x, env) for x in e[4]]
+            self.stats["libops"] += 1
+            if name == "abs":
+                r = abs(a[0])
+            elif name == "next":
+                r = a[0] + 1
+            elif name == "prev":
+                r = a[0] - 1
+            elif name == "gcd":
+                r = math.gcd(a[0], a[1])
+            elif name == "max":
+                r = max(a)
+            elif name == "min":
+                r = min(a)
+            elif name == "shift":
+                if a[1] < 0 and a[0] < 0:
+                    raise OutOfModel("right shift of a negative value")
+                r = a[0] << a[1] if a[1] >= 0 else a[0] >> -a[1]
+            elif name == "length":
+                if a[0] <= 0:
+                    raise OutOfModel("length of a non-positive value")
+                r = a[0].bit_length()
+            elif name == "even?":
+                return a[0] % 2 == 0
+            elif name == "odd?":
+                return a[0] % 2 == 1
+            elif name == "zero?":
+                return a[0] == 0
+            elif name == "bit?":
+                if a[0] < 0:
+                    raise OutOfModel("bit test of a negative value")
+                return (a[0] >> a[1]) & 1 == 1
+            else:
+                raise AssertionError(name)
+            if rt == Z and abs(r) > 10 ** 2000:
+                raise OutOfModel("huge")
+            return self.mi(r) if rt == MI else r
         if k == "neg":
             v = -self.ev(e[2], env)
             return self.mi(v) if e[1] == MI else v
@@ -1273,6 +1350,8 @@ class Renderer:
             return e[2]
         if k == "bin":
             return "(%s %s %s)" % (self.x(e[3]), e[2], self.x(e[4]))
+        if k == "lib":
+            return "%s(%s)" % (e[2], ", ".join(self.x(a) for a in e[4]))
         if k == "neg":
             return "(-%s)" % self.x(e[2])
         if k == "pow":
@@ -1506,7 +1585,8 @@ def render_split(prog):
 
 
 # --------------------------------------------------------------------------------------------- ill-typed mutants (C06, C13, C15)
-MUTANT_KINDS = ["M1", "M2a", "M2b", "M3", "M4", "M5", "M6", "M7", "M8"]
+MUTANT_KINDS = ["M1", "M2a", "M2b", "M3", "M4", "M5", "M6", "M7", "M8", "M9", "M10", "M11", "M12"]
+TWIN_KINDS = ["W9", "W10", "W11", "W12"]     # the well-typed counterparts of M9..M12: same declarations, fault repaired; must be accepted
 TOK_DECL = "TokQ: with { mkTokQ: () -> % } == add { Rep == MachineInteger; import from Rep; mkTokQ(): % == per 0 };"
 HLP_DECL = "hlpQ(x: MachineInteger): MachineInteger == x + (1@MachineInteger);"
 
@@ -1536,6 +1616,33 @@ def mutant_parts(kind, n=0):
     if kind == "M8":
         return ["CtP: Category == with { e1P: % -> MachineInteger };",
                 "DmP(T: CtP): with { gP: T -> MachineInteger } == add { gP(t: T): MachineInteger == opNotThereQ(t) };"], None, "opNotThereQ"
+    # conditional implementation of an unconditionally required export (M9) / export made conditional too (W9)
+    m9 = ["HasQ: Category == with { twQ: % -> % };",
+          "CtC%s: Category == with { mkC: MachineInteger -> %%; vlC: %% -> MachineInteger; %sdbC: %% -> %% };",
+          "DmC(R: Type): CtC%s == add { Rep == MachineInteger; import from Rep; mkC(n: MachineInteger): % == per n; vlC(x: %): MachineInteger == rep x; "
+          "if R has HasQ then { dbC(x: %): % == per(rep x + rep x); } };"]
+    if kind == "M9":
+        return [m9[0], m9[1] % ("", ""), m9[2].replace("CtC%s", "CtC")], None, "add"
+    if kind == "W9":
+        return [m9[0], m9[1] % ("(R: Type)", "if R has HasQ then "), m9[2].replace("CtC%s", "CtC(R)")], ["import from DmC(String);", 'prMI("", vlC(mkC((4@MachineInteger))));'], "vlC"
+    # the same export, whose type mentions neither % nor a parameter, imported from two instances of one parametrised domain
+    tg = ["TgQ(n: MachineInteger): with { tagQ: () -> MachineInteger } == add { tagQ(): MachineInteger == n };", "import from TgQ(1), TgQ(2);"]
+    if kind == "M10":
+        return tg, ["qa%d: MachineInteger := tagQ();" % n], "tagQ"
+    if kind == "W10":
+        return tg, ["qa%d: MachineInteger := tagQ()$TgQ(2);" % n, 'prMI("", qa%d);' % n], "tagQ"
+    # ... from two parameters of the same category
+    nm = ["NmQ: Category == with { lblQ: () -> MachineInteger };", "RdQ: NmQ == add { lblQ(): MachineInteger == 1 };", "BlQ: NmQ == add { lblQ(): MachineInteger == 2 };"]
+    if kind == "M11":
+        return nm + ["bothQ(R: NmQ, S: NmQ): MachineInteger == { import from R, S; lblQ() }"], None, "lblQ"
+    if kind == "W11":
+        return nm + ["bothQ(R: NmQ, S: NmQ): MachineInteger == { import from R, S; lblQ()$S }"], ['prMI("", bothQ(RdQ, BlQ));'], "lblQ"
+    # ... one instance imported at file level, another inside the function
+    bx = ["BxQ(T: Type): with { wdQ: () -> MachineInteger } == add { wdQ(): MachineInteger == 8 };", "import from BxQ(String);"]
+    if kind == "M12":
+        return bx, ["import from BxQ(MachineInteger);", "qb%d: MachineInteger := wdQ();" % n], "wdQ"
+    if kind == "W12":
+        return bx, ["import from BxQ(MachineInteger);", "qb%d: MachineInteger := wdQ()$BxQ(MachineInteger);" % n, 'prMI("", qb%d);' % n], "wdQ"
     raise ValueError(kind)
 
 
